@@ -67,6 +67,32 @@ var c17Paths = []string{
 	"cells[1]", "rows[0][1]", "pcells[2]", "cells[3]", "rows[2][0]",
 	// unexported fields, however reached
 	`d["u"]`, "d.Next.u", "d.M.k.u",
+	// fields promoted through four levels of embedding, some nil and some not
+	"deep.First", "deep.Second", "deep.Last", "deep2.First", "deep2.Last",
+	// through values of a non-empty interface type (field, slice element, map value)
+	"sh.Shape.Radius", "sh.Shape.Label", "sh.Shape.Tags.a", "sh.Shapes[0].Label", "sh.ByName.c.Radius", `sh.ByName["c"].Tags["a"]`,
+	"sh.Shape.Nope", "sh.Nil.Radius", "sh.Shape.Tags.zz",
+}
+
+type C17L3 struct{ First, Second, Last *int }
+type C17L2 struct{ C17L3 }
+type C17L1 struct{ C17L2 }
+type c17Top struct{ C17L1 }
+
+type c17Shape interface{ Area() int }
+type c17Circle struct {
+	Radius int
+	Label  string
+	Tags   map[string]int
+}
+
+func (c *c17Circle) Area() int { return c.Radius }
+
+type c17Shapes struct {
+	Shape  c17Shape
+	Nil    c17Shape
+	Shapes []c17Shape
+	ByName map[string]c17Shape
 }
 
 type c17Lang string
@@ -85,6 +111,15 @@ func c17Extra(vars VarMap, present map[string]bool) {
 	vars.Set("rows", [2][2]string{{"a", ""}, {"c", "d"}})
 	vars.Set("pcells", &[3]int{0, 1, 2})
 	present["cells[1]"], present["rows[0][1]"], present["pcells[2]"] = true, true, true
+	one := 1
+	vars.Set("deep", c17Top{C17L1{C17L2{C17L3{First: &one, Second: &one}}}})
+	vars.Set("deep2", &c17Top{C17L1{C17L2{C17L3{Last: &one}}}})
+	present["deep.First"], present["deep.Second"], present["deep2.Last"] = true, true, true
+	circle := &c17Circle{Radius: 0, Label: "", Tags: map[string]int{"a": 0}}
+	vars.Set("sh", c17Shapes{Shape: circle, Shapes: []c17Shape{circle}, ByName: map[string]c17Shape{"c": circle}})
+	for _, p := range []string{"sh.Shape.Radius", "sh.Shape.Label", "sh.Shape.Tags.a", "sh.Shapes[0].Label", "sh.ByName.c.Radius", `sh.ByName["c"].Tags["a"]`} {
+		present[p] = true
+	}
 }
 
 // H_C17_paths: isset(P) for 27 access paths (fields, chains, indexes, map keys; valid,
@@ -241,7 +276,6 @@ func H_C17_pairs() {
 	q := ndChoice("q", len(c17Paths))
 	form := ndChoice("form", 3)
 	P, Q := c17Paths[p], c17Paths[q]
-	both := present[P] && present[Q]
 	var src, yes, no string
 	switch form {
 	case 0:
@@ -255,6 +289,7 @@ func H_C17_pairs() {
 	vars := make(VarMap)
 	vars.Set("d", root)
 	c17Extra(vars, present)
+	both := present[P] && present[Q] // (c17Extra records which of its own paths exist)
 	out, err := hxExec(set, "/m.jet", vars, nil)
 	vfAssert(err == nil, "isset never fails")
 	if both {
